@@ -1263,12 +1263,18 @@ class XsdElement(XsdComponent, ParticleMixin,
         if isinstance(other, XsdElement):
             if self.name == other.name:
                 return True
-            elif other.substitution_group == self.name or other.name == self.substitution_group:
+
+            # Also the indirect members of a substitution group can replace the head
+            names = {e.name for e in self.iter_substitutes()}
+            if other.name in names:
                 return True
+            for e in other.iter_substitutes():
+                if e.name == self.name or e.name in names:
+                    return True
         elif isinstance(other, XsdAnyElement):
             if other.is_matching(self.name, self.default_namespace):
                 return True
-            for e in self.maps.substitution_groups.get(self.name, ()):
+            for e in self.iter_substitutes():
                 if other.is_matching(e.name, self.default_namespace):
                     return True
         return False
